@@ -710,7 +710,12 @@ func bigDoc(bc bigCase) (text, plain []byte) {
 }
 
 func bigModes(c *hl.Ctx, n int) []rmode {
-	ms := []rmode{{Kind: rWhole}, {Kind: rWholeEOF}, {Kind: rChunk, K: 4096}, {Kind: rChunk, K: 1000}, {Kind: rChunk, K: 7}}
+	ms := []rmode{{Kind: rWhole}, {Kind: rWholeEOF}, {Kind: rChunk, K: 4096}, {Kind: rChunk, K: 1000}}
+	if n <= 70000 {
+		ms = append(ms, rmode{Kind: rChunk, K: 7})
+	} else {
+		ms = append(ms, rmode{Kind: rChunk, K: 61})
+	}
 	for _, k := range []int{1, 2, 4095, 4096, 4097, 65535, 65536, 65537, n / 2, n - 2, n - 1} {
 		if k >= 1 && k < n {
 			ms = append(ms, rmode{Kind: rSplit, K: k})
@@ -836,6 +841,7 @@ func run(c *hl.Ctx) {
 					}
 					evalBig(c, bc, m)
 				}
+				idx++ // keeps equal read modes of successive cases off one shard
 			}
 		}
 	}
